@@ -198,6 +198,8 @@ func reproduced(what string, nr nativeRun) bool {
 				return true
 			}
 		}
+	case strings.HasPrefix(what, "PROBE "): // any native failure counts: the engine could not follow the code on this input
+		return len(nr.Failed) > 0 || (nr.Panic != "" && !strings.Contains(nr.Panic, "vf.Assume") && !strings.Contains(nr.Panic, "vf.Sleep"))
 	case strings.HasPrefix(what, "WRITE "):
 		for _, f := range nr.Failed {
 			if f == "no-shared-write" {
